@@ -1179,6 +1179,48 @@ func genFuncs(ps []pkgInfo) (string, error) {
 		pos := pi.p.Fset.Position(fd.Pos())
 		defs = append(defs, fmt.Sprintf("(* %s.%s — %s *)\nDefinition %s_%s %s : res %s :=\n  %s.\n", t.pkg, t.name, strings.TrimPrefix(pos.Filename, *repo+"/"), coqIdent(t.pkg), t.name, strings.Join(params, " "), rt, body))
 	}
+	// every package-level byte-slice literal of package cose is defined, whether or not a function above used it
+	// (the header-logic slices of T12 refer to them too)
+	for i := range ps {
+		if ps[i].short != "cose" {
+			continue
+		}
+		for _, file := range ps[i].p.Syntax {
+			for _, d := range file.Decls {
+				gd, ok := d.(*ast.GenDecl)
+				if !ok || gd.Tok != token.VAR {
+					continue
+				}
+				for _, sp := range gd.Specs {
+					vs := sp.(*ast.ValueSpec)
+					for j, n := range vs.Names {
+						if j >= len(vs.Values) {
+							continue
+						}
+						cl, ok := vs.Values[j].(*ast.CompositeLit)
+						if !ok || !isByteSlice(ps[i].p.TypesInfo.TypeOf(n)) {
+							continue
+						}
+						var xs []string
+						good := true
+						for _, el := range cl.Elts {
+							v, ok := intConst(ps[i].p, el)
+							if !ok || v < 0 || v > 255 {
+								good = false
+							}
+							xs = append(xs, fmt.Sprintf("%d", v))
+						}
+						name := "cose_" + n.Name
+						if _, have := byteVars[name]; good && !have {
+							byteVars[name] = "bytes_of_Z " + coqList(xs)
+							varOrder = append(varOrder, name)
+						}
+					}
+				}
+			}
+		}
+	}
+	sort.Strings(varOrder)
 	for _, n := range varOrder {
 		fmt.Fprintf(&b, "Definition %s : bytes := %s.\n", n, byteVars[n])
 	}
